@@ -87,15 +87,18 @@ def find_factor(p):
 
 
 def prime_factors(n):
+    """[(prime, exponent)] of n."""
     out, d = [], 2
     while d * d <= n:
         if n % d == 0:
-            out.append(d)
+            e = 0
             while n % d == 0:
                 n //= d
+                e += 1
+            out.append((d, e))
         d += 1 if d == 2 else 2
     if n > 1:
-        out.append(n)
+        out.append((n, 1))
     return out
 
 
@@ -104,9 +107,13 @@ def find_generator(p, k, primes):
     for g in range(1, min(1 << k, 4096)):
         if g == 1 and n != 1:
             continue
-        if powmod(g, n, p) == 1 and all(powmod(g, n // q, p) != 1 for q in primes):
+        if powmod(g, n, p) == 1 and all(powmod(g, n // q, p) != 1 for q, _ in primes):
             return g
     return None
+
+
+def lean_pairs(ps):
+    return "[" + ", ".join(f"({q}, {e})" for q, e in ps) + "]"
 
 
 def parse_comment_poly(s):
@@ -192,15 +199,6 @@ def extract():
     lines.append("")
     lines.append("def binaryFields : List Params := [" + ", ".join(LNAME[n] for n in present) + "]")
     lines.append("")
-    lines.append("/-- Generator-order certificate found by the translator: `gen ^ (2^bits - 1) = 1` and")
-    lines.append("`gen ^ ((2^bits - 1) / q) ≠ 1` for every prime `q ∈ orderPrimes` (the prime divisors of `2^bits - 1`).")
-    lines.append("For a reducible polynomial no certificate exists; then `zeroDivisor = some (f, h)` with `f·h = POLYNOMIAL`. -/")
-    lines.append("structure Cert where")
-    lines.append("  field : Params")
-    lines.append("  gen : Nat")
-    lines.append("  orderPrimes : List Nat")
-    lines.append("  zeroDivisor : Option (Nat × Nat)")
-    lines.append("")
     for name in present:
         f = fields[name]
         k, p = f["bits"], f["poly"]
@@ -219,15 +217,15 @@ def extract():
             items[items_name] = dict(items["gf." + name], value=record_value)
             fail(items_name, f"POLYNOMIAL of {name} is reducible: {bin(p)} = {bin(factor)} * {bin(q)}; "
                              f"zero divisor: {name}::truncate_from({factor}) * {name}::truncate_from({q}) = 0")
-            lines.append(f"def {LNAME[name]}Cert : Cert := {{ field := {LNAME[name]}, gen := 0, orderPrimes := {primes}, zeroDivisor := some ({factor}, {q}) }}")
+            lines.append(f"def {LNAME[name]}Cert : Cert := {{ field := {LNAME[name]}, gen := 0, orderFactors := {lean_pairs(primes)}, zeroDivisor := some ({factor}, {q}) }}")
         else:
             g = find_generator(p, k, primes)
             from extract import items
-            items["gf.irreducible." + name] = dict(items["gf." + name], value={"irreducible": True, "generator": g, "order_primes": primes})
+            items["gf.irreducible." + name] = dict(items["gf." + name], value={"irreducible": True, "generator": g, "order_factors": primes})
             if g is None:
                 fail("gf.irreducible." + name, "no generator found among the first 4096 elements")
                 g = 0
-            lines.append(f"def {LNAME[name]}Cert : Cert := {{ field := {LNAME[name]}, gen := {g}, orderPrimes := {primes}, zeroDivisor := none }}")
+            lines.append(f"def {LNAME[name]}Cert : Cert := {{ field := {LNAME[name]}, gen := {g}, orderFactors := {lean_pairs(primes)}, zeroDivisor := none }}")
         certs.append(LNAME[name] + "Cert")
     lines.append("")
     lines.append("def binaryFieldCerts : List Cert := [" + ", ".join(certs) + "]")
